@@ -220,9 +220,6 @@ fn c15_one(b: &mut Batch, words: &mut Words, src: u64, jit: u64, fake: u64, bool
                     b.fail(if !MACOS && !b_in_range(d) { "out-of-range-displacement-encoded-instead-of-refused" } else { "patched-code-does-not-branch-to-the-fake" }, mk(J::new().s("end", &format!("{:?}", other)).s("path", &path_s)));
                 }
             }
-            if let Err(e) = check_guard(src) {
-                b.fail("guard-bookkeeping", mk(J::new().s("what", &e)));
-            }
         }
     }
 }
@@ -597,11 +594,66 @@ fn c01_one(b: &mut Batch, forms: &mut BTreeMap<String, u64>, src: u64, jit: u64,
                 (x86::End::Unknown { .. }, _) => b.unknown += 1,
                 (other, _) => b.fail("patched-code-does-not-reach-the-fake", mk(J::new().s("end", &format!("{:?}", other)).s("path", &path_s))),
             }
-            if let Err(e) = check_guard(src) {
-                b.fail("guard-bookkeeping", mk(J::new().s("what", &e)));
-            }
         }
     }
+}
+
+// ===================================================================================== C02 (bookkeeping part, all back ends)
+/// The save/restore bookkeeping of every back end: the guard must restore exactly the range that was
+/// overwritten, at the address that was overwritten, with the bytes that were there before.
+fn run_c02sim(ctx: &Ctx) {
+    let n = if ctx.n > 0 { ctx.n } else if ctx.thorough { 400_000 } else { 30_000 };
+    let archs: [(&str, Arch); 3] = [("arm64", Arch::Arm64), ("arm", Arch::Arm), ("amd64", Arch::Amd64)];
+    let mut total = 0u64;
+    let mut idx = 0u64;
+    for (name, arch) in archs {
+        for kind in ["function", "boolean"] {
+            if ctx.mine(idx) {
+                let class = format!("{}/{}/{}/{}", name, kind, if MACOS { "macos" } else { "linux" }, if cfg!(debug_assertions) { "dev" } else { "release" });
+                out::intent(idx, &class, &J::new().s("crash_sig", name));
+                let mut b = Batch::new();
+                let mut rng = Rng::new(ctx.seed ^ rng::hash64(idx ^ 0xC02));
+                for _ in 0..n {
+                    b.evals += 1;
+                    let (src, jit, fake): (u64, u64, u64) = match arch {
+                        Arch::Arm => {
+                            let thumb = rng.below(2);
+                            let e = ((rng.next() as u32 & 0xFFFF_FFF0) as u64 + if thumb == 1 && rng.chance(1, 2) { 2 } else { 0 }).max(16) | thumb;
+                            (e, 0, ((rng.next() as u32) as u64 & !1).max(2) | rng.below(2))
+                        }
+                        Arch::Arm64 => {
+                            let s0 = user_addr(&mut rng);
+                            (s0, (s0 & !0xFFF).wrapping_add((rng.range(-30000, 30000) * 4096) as u64) | 0x10_0000_0000, user_addr(&mut rng))
+                        }
+                        Arch::Amd64 => {
+                            let s0 = (rng.next() & 0x0000_7FFF_FFFF_FFFF) | 0x10000;
+                            let j = if rng.chance(1, 2) { (s0 & !0xFFF).wrapping_add((rng.range(-30000, 30000) * 4096) as u64) | 0x100000 } else { (rng.next() & 0x0000_7FFF_FFFF_F000) | 0x100000 };
+                            (s0, j, (rng.next() & 0x0000_7FFF_FFFF_FFFF) | 0x20)
+                        }
+                    };
+                    if (jit as i128 - src as i128).abs() < 4096 && arch != Arch::Arm {
+                        continue;
+                    }
+                    let boolean = if kind == "boolean" { Some(rng.chance(1, 2)) } else { None };
+                    match install(arch, src, jit, fake, boolean, rng.next()) {
+                        Err(_) => b.refused += 1,
+                        Ok(()) => {
+                            let entry = if arch == Arch::Arm { src & !1 } else { src };
+                            if let Err(e) = check_guard(entry) {
+                                let sig = if e.contains("pre-image") { "saved-bytes-are-not-the-pre-image" } else if e.contains("bytes but") { "guard-restores-a-different-length-than-was-written" } else if e.contains("restores") { "guard-restores-a-different-address" } else { "guard-bookkeeping" };
+                                b.fail(sig, J::new().s("what", &e).x("entry", entry as usize).x("trampoline", jit as usize));
+                            }
+                        }
+                    }
+                }
+                total += b.evals;
+                let d = J::new().n("evaluations", b.evals).n("refused", b.refused);
+                b.emit(idx, &class, d);
+            }
+            idx += 1;
+        }
+    }
+    out::summary(&J::new().n("evaluations_total", total).b("release", !cfg!(debug_assertions)).b("macos_variant", MACOS));
 }
 
 fn run_c01sim(ctx: &Ctx) {
@@ -745,6 +797,7 @@ fn main() {
         "c15" => run_c15(&ctx),
         "c16" => run_c16(&ctx),
         "c01sim" => run_c01sim(&ctx),
+        "c02sim" => run_c02sim(&ctx),
         other => {
             eprintln!("HARNESS-ERROR unknown scenario {other}");
             std::process::exit(2);
